@@ -276,7 +276,7 @@ func c04PoolCheck(c *ctx, code int) {
 		c.fail("decoding the encoder's rendering of a graph with containers sharing an address fails (a reference resolves to the wrong container)", in, do.String()+": "+msg, "")
 		return
 	}
-	if len(bs) < 6000 {
+	if len(bs) < 6000 && c.nCases < c04CorrCap(c) {
 		tm, nm := hessian.ExtractTypeNameMap(p)
 		if h, err := hparseAll(bs); err == nil {
 			encCorr(c, p, nm, bs, h)
@@ -286,6 +286,15 @@ func c04PoolCheck(c *ctx, code int) {
 	if got := graphCanon(dec); got != want {
 		c.fail("decoded graph differs from the original (contents or sharing)", in, diffStr(want, got), "")
 	}
+}
+
+// both models run on the graphs of the quick tier in full; the thorough tier adds oracle
+// evaluations by the million, of which the first 400000 cases also go to the models
+func c04CorrCap(c *ctx) int {
+	if c.tier == "thorough" {
+		return 400000
+	}
+	return 1 << 30
 }
 
 // classifier of known findings
@@ -303,7 +312,7 @@ func c04Check(c *ctx, root *GNode, in map[string]interface{}) {
 		return
 	}
 	// both models on the same graph: the encoder model must write these bytes, the decoder model must build this heap
-	if len(bs) < 6000 {
+	if len(bs) < 6000 && c.nCases < c04CorrCap(c) {
 		tm, nm := hessian.ExtractTypeNameMap(root)
 		if h, err := hparseAll(bs); err == nil {
 			encCorr(c, root, nm, bs, h)
